@@ -7,6 +7,7 @@ package httpserver
 // (length-declared, chunked, lying Content-Length).
 
 import (
+	"strings"
 	"bytes"
 	"fmt"
 	"testing"
@@ -23,12 +24,15 @@ var (
 	c07Seq     int
 )
 
-func c07Front(pathL, serverL, poolL, proxyL int) (*lbFront, error) {
-	key := fmt.Sprint(pathL, serverL, poolL, proxyL)
+func c07Front(pathL, serverL, poolL, proxyL int, compress ...bool) (*lbFront, error) {
+	key := fmt.Sprint(pathL, serverL, poolL, proxyL, compress)
 	if f, ok := c07Fronts[key]; ok {
 		return f, nil
 	}
 	pipe := fmt.Sprintf("name: pipe\nkind: Pipeline\nfilters:\n- name: proxy\n  kind: Proxy\n  serverMaxBodySize: %d\n  pools:\n  - servers:\n    - url: http://127.0.0.1:%d\n    serverMaxBodySize: %d\n", proxyL, c07Backend.port(), poolL)
+	if len(compress) > 0 && compress[0] {
+		pipe = strings.Replace(pipe, "  pools:\n", "  compression:\n    minLength: 1\n  pools:\n", 1)
+	}
 	server := fmt.Sprintf("kind: HTTPServer\nname: front\nport: 18080\nkeepAlive: true\nhttps: false\nclientMaxBodySize: %d\nrules:\n- paths:\n  - pathPrefix: /\n    backend: pipe\n    clientMaxBodySize: %d\n", serverL, pathL)
 	f, err := newLBFront(server, pipe)
 	if err != nil {
@@ -73,6 +77,8 @@ func TestVerifC07(t *testing.T) {
 			}
 			size := sizes[c.Choose(len(sizes), "size")]
 			enc := encs[c.Choose(len(encs), "encoding")]
+			// response direction: the Proxy may also compress what it forwards (client accepts gzip)
+			compress := dir == "response" && c.Choose(2, "proxy-compression") == 1
 			if !c.Mine() {
 				return
 			}
@@ -81,7 +87,7 @@ func TestVerifC07(t *testing.T) {
 			if dir == "request" {
 				front, err = c07Front(inner, outer, 0, 0)
 			} else {
-				front, err = c07Front(0, 0, inner, outer)
+				front, err = c07Front(0, 0, inner, outer, compress)
 			}
 			if err != nil {
 				c.Failf("config-rejected", "%v", err)
@@ -99,6 +105,9 @@ func TestVerifC07(t *testing.T) {
 				}
 			} else {
 				q.method = "GET"
+				if compress {
+					q.hdr = append(q.hdr, [2]string{"Accept-Encoding", "gzip"})
+				}
 				sc.body = body
 				sc.chunked = enc == "chunked"
 				if enc == "lying-content-length" {
@@ -122,6 +131,9 @@ func TestVerifC07(t *testing.T) {
 			over := !unlimited && size > E
 			lim := fmt.Sprintf("inner=%d,outer=%d", inner, outer)
 			cls := fmt.Sprintf("%s:%s:size=%s:%s", dir, enc, sizeClass(size, E, unlimited), limClass(inner, outer))
+			if compress {
+				cls += ":proxy-compression"
+			}
 			desc := fmt.Sprintf("%s direction, limits %s (effective %d), body %d bytes, %s\nclient got: status %d framing %s (%s) declared CL %d body %d bytes, io error %v; backend called %d times", dir, lim, E, size, enc, resp.status, resp.framing, resp.framingErr, resp.declaredCL, len(resp.body), resp.ioErr, len(seen))
 			c.Note("%s", desc)
 			if dir == "request" {
@@ -158,7 +170,14 @@ func TestVerifC07(t *testing.T) {
 					// buffered: the proxy has read the whole (short) body before it answers, so it must answer with an
 					// error status.  streamed (-1): the status line is already out, the client must at least see
 					// that the framing is broken.
-					if resp.ioErr == nil && resp.status < 400 && (!unlimited || resp.framingErr == "") {
+					visiblyBroken := resp.framingErr != ""
+					if compress && !visiblyBroken {
+						// the proxy re-frames what it compresses (chunked): the cut then shows in the gzip stream
+						if _, err := logical(resp.body, resp.hdr); err != nil {
+							visiblyBroken = true
+						}
+					}
+					if resp.ioErr == nil && resp.status < 400 && (!unlimited || !visiblyBroken) {
 						c.Failf("truncated-response-delivered-as-success:"+cls, "%s", desc)
 					}
 				case over:
@@ -166,7 +185,13 @@ func TestVerifC07(t *testing.T) {
 						c.Failf("oversized-response-delivered:"+cls, "%s", desc)
 					}
 				default:
-					if resp.status != 200 || resp.framingErr != "" || !bytes.Equal(resp.body, body) {
+					got := resp.body
+					if compress && resp.status == 200 {
+						if dec, err := logical(resp.body, resp.hdr); err == nil {
+							got = dec
+						}
+					}
+					if resp.status != 200 || resp.framingErr != "" || !bytes.Equal(got, body) {
 						c.Failf("response-within-limit-not-delivered-intact:"+cls, "%s", desc)
 					}
 				}
